@@ -878,6 +878,19 @@ class RegionLifter:
             raise Unsupported(name)
         if name == "compiled_clone":
             return args[0]
+        if name == "spectral_norm" and len(args) >= 4:
+            # CSC power iteration: compared through the matrix it is taken of
+            data, indptr, indices, nrows = args[:4]
+            nr = self.as_int(nrows)
+            ncol = len(indptr) - 1
+            M = Mat(Vec(const(0) for _ in range(ncol)) for _ in range(nr))
+            for j in range(ncol):
+                for k in range(self.as_int(indptr[j]), self.as_int(indptr[j + 1])):
+                    r = self.as_int(indices[k])
+                    if not 0 <= r < nr:
+                        raise Raised(f"row index {r} outside the {nr} rows")
+                    M[r][j] = R(M[r][j]) + R(data[k])
+            return self.spectral(M)
         r = self.prog.resolve(F.module, name)
         from .model import FuncInfo, ClassInfo
         if isinstance(r, FuncInfo):
